@@ -114,7 +114,7 @@ def case_strategy(draw, tier="quick"):
             "reassign": draw(st.sampled_from([None, None, None, "triclinic-first", "vector-first"])),
             "early_close": draw(st.one_of(st.none(), st.none(), st.none(), st.integers(0, 1000))),
             "refused": draw(st.one_of(st.none(), st.none(), st.integers(0, 1000))),
-            "read_api": draw(st.sampled_from(["path", "path", "fileobj", "open_coordinate_file", "iterate"])),
+            "read_api": draw(st.sampled_from(["path", "path", "fileobj", "open_coordinate_file", "iterate", "peek"])),
             "prior": draw(st.one_of(st.none(), st.fixed_dictionaries({
                 "format": st.sampled_from([None, 1, 2, 4, 6]), "vel": st.booleans(), "n": st.integers(1, 40),
                 "same_path": st.booleans(), "read": st.booleans()})))}
@@ -242,6 +242,22 @@ def check(case):
         else:
             g = GroFile(path)
         try:
+            if how == "peek" and g.natoms:
+                # the caller looks at the raw text of a line first (readline(parsed=False)), goes back and reads on
+                k = len(recs) // 2
+                g.seek_atom(k)
+                g.readline(parsed=False)
+                g.seek_atom(k)
+                mid = next(g)
+                g.seek_atom(0)
+                g.readline(parsed=False)
+                g.seek_atom(0)
+                recs_ = g.readlines()
+                if tuple(mid) != tuple(recs_[k]):
+                    raise PropertyViolation("peek", "record %d read after a raw look differs from the same record read in "
+                                            "sequence" % k)
+                fmt_read[0] = tuple(g.position_format)
+                return recs_, np.array(g.box_matrix, float), g.comment, g.natoms
             recs_ = [next(g) for _ in range(g.natoms)] if how == "iterate" else g.readlines()
             fmt_read[0] = tuple(g.position_format)
             return recs_, np.array(g.box_matrix, float), g.comment, g.natoms
